@@ -27,3 +27,5 @@ func verifC17Tokens(L int) {
 func VerifHarness_C17_Tokens_3() { verifC17Tokens(3) }
 func VerifHarness_C17_Tokens_4() { verifC17Tokens(4) }
 func VerifHarness_C17_Tokens_5() { verifC17Tokens(5) }
+
+func VerifHarness_C17_Tokens_6() { verifC17Tokens(6) }
